@@ -474,7 +474,17 @@ class EngineBase:
                     return VList(kind.elem, v.arrs, v.off, v.n)
             return None
         if isinstance(kind, RECORD):
-            return v if isinstance(v, VRecord) and v.kind == kind else None
+            if not isinstance(v, VRecord) or tuple(n for n, _ in v.items) != tuple(n for n, _ in kind.fields):
+                return None          # the key ORDER is part of the shape: dict order is observable (list(d.values())[0])
+            items = []
+            for (n, fk), (_, item) in zip(kind.fields, v.items):
+                if isinstance(item, VListRef):
+                    item = st.lists[item.lid]
+                c = self.coerce(st, item, fk)
+                if c is None:
+                    return None
+                items.append((n, c))
+            return VRecord(tuple(items))
         if isinstance(kind, TUPLE) and isinstance(v, VTuple):
             items = [self.coerce(st, i, k) for i, k in zip(v.items, kind.items)]
             return None if any(i is None for i in items) else VTuple(tuple(items))
